@@ -4,8 +4,8 @@ import Dhcp.Server
 /-
   Line-protocol operations of the `Server` family (property C14).
 
-    serve4 <event> <event> …
-    serve6 <event> <event> …
+    serve4 [w=<k>] <event> <event> …
+    serve6 [w=<k>] <event> <event> …
 
   event (fields separated by `:`):
     e                          ReadFrom returns an error
@@ -86,7 +86,9 @@ def showOutcome {α} (sh : α → String) (o : Outcome α) : String :=
 def tableDec (tbl : List (Bytes × Bytes)) (b : Bytes) : Option Bytes :=
   (tbl.find? (fun e => e.1 == b)).map (·.2)
 
-def stepServer (op : String) (args : List String) : Option String :=
+def stepServer (op : String) (args0 : List String) : Option String :=
+  -- `w=<k>` (how long the harness's handlers block) is not part of the model's input
+  let args := args0.filter (fun a => !a.startsWith "w=")
   match op with
   | "serve4" => do
     let evs ← args.mapM parseEvent
